@@ -287,6 +287,16 @@ def server_refusals(ctx, h, rng):
                 judge(ctx, h, "toggle", res, mux, case, "download-repeat")
                 h.unchanged(snap, case, "toggle")
                 h.flush(case)
+        # an entry that holds the empty value is uploaded as a segmented transfer of size 0: its one segment request with the
+        # wrong toggle bit is a toggle error like any other
+        if c.download(*mux, b"")[0] == "ok":
+            case = case_of("toggle", vm, variant="upload-of-empty-value")
+            r0 = c.exchange(struct.pack("<BHB4x", 0x40, *mux), step="ul_init")
+            if r0 is not None and r0[0] & 0xE2 == 0x40:          # segmented upload initiated
+                r = c.exchange(bytes([0x60 | (1 << 4)]) + bytes(7), step="ul_seg")
+                res = c._abort_info(r, mux, "ul_seg") if r is not None and r[0] == 0x80 else ("no-abort", r)
+                judge(ctx, h, "toggle", res, mux, case, "upload-empty")
+                h.flush(case)
         after()
     # ---- unknown specifier and unsupported block download
     for _ in range(4):
